@@ -229,6 +229,9 @@ func (r *NgReader) readOption() error {
 			}
 		}
 		r.currentBlock.length -= uint32(length)
+	} else {
+		// a zero length option has an empty value, not the value of the previous option
+		r.currentOption.value = r.currentOption.value[:0]
 	}
 	return nil
 }
